@@ -53,15 +53,6 @@ def _strings(v):
 
 
 def check(case, ctx):
-    if "no-trailing-backslash" in ctx.flags and case["node"]["k"] == "tmpl":
-        # known finding K7: a parameter value ending in a backslash swallows the brace of the reference next to it
-        hit = [p for p in case["node"]["params"].values() if p["k"] == "val" and isinstance(p["v"], str) and p["v"].endswith("\\")]
-        if hit:
-            case = copy.deepcopy(case)
-            for p in case["node"]["params"].values():
-                if p["k"] == "val" and isinstance(p["v"], str) and p["v"].endswith("\\"):
-                    p["v"] = p["v"] + "b"
-            ctx.exclude("no-trailing-backslash")
     spec = {"defs": case.get("defs", []), "root": case["node"]}
     o = case["options"]
     r = Ref(spec).run(o)
